@@ -8,7 +8,7 @@ env = dict(os.environ); env.pop('PYGLOVE_VERIF', None)
 n = sys.argv[1] if len(sys.argv) > 1 else '12'
 cmd = ['/venv/bin/python', '-m', 'pytest', '-q', '-p', 'no:cacheprovider', '--timeout=900',
        '--continue-on-collection-errors', '--junitxml=' + out] + (['-n', n] if n != '0' else [])
-p = subprocess.run(cmd, cwd='/repo', env=env, capture_output=True, text=True)
+p = subprocess.run(cmd, cwd=os.environ.get('BASELINE_REPO', '/repo'), env=env, capture_output=True, text=True)
 passed = set()
 for tc in ET.parse(out).getroot().iter('testcase'):
   if not any(c.tag in ('failure', 'error', 'skipped') for c in tc):
